@@ -14,8 +14,8 @@ VARIABLE hist
 Mover == CHOOSE p \in Procs : pc'[p] # pc[p]
 Ev(p) == [tid |-> p, k |-> Kind[pc[p]], u |-> ArgU(p), t |-> ArgT(p)]
 \* canonical order of local steps, as in LoaderTrace: a local label is left before anything else moves
-IsLocalB(p) == pc[p] \notin DOMAIN Kind /\ pc[p] \notin {"Done", "HDead", "DDead"}
-StepOfB(p) == Load(p) \/ RawLoad(p) \/ Deferred(p) \/ (p = Main /\ M(p)) \/ (p \in Thr /\ T(p))
+IsLocalB(p) == pc[p] \notin DOMAIN Kind /\ pc[p] \notin {"Done", "HDead", "DDead", "THDead", "TDDead"}
+StepOfB(p) == Load(p) \/ RawLoad(p) \/ Deferred(p) \/ TLoad(p) \/ TRawLoad(p) \/ TDeferred(p) \/ (p = Main /\ M(p)) \/ (p \in Thr /\ T(p))
 BNext == \/ \E p \in Procs : /\ IsLocalB(p) /\ \A q \in Procs : q < p => ~IsLocalB(q)
                              /\ StepOfB(p) /\ hist' = hist
          \/ /\ \A p \in Procs : ~IsLocalB(p)
